@@ -249,6 +249,8 @@ def check_generic(case) -> Result:
         spelled = 'INFO:unresolvable|' + spelled
     elif deco['alt'] == 'info-last':
         spelled = spelled + '|INFO:note'
+    elif deco['alt'].startswith('unresolvable-first:'):
+        spelled = deco['alt'].split(':', 1)[1] + '|' + spelled
     elif deco['alt'] == 'second-resolvable':
         spelled = spelled + '|Oxidation'
     ctx = dict(spelling=spelled, kind=kind)
@@ -326,7 +328,9 @@ def generic_strategy():
         else:
             case['text'] = draw(st.sampled_from(names))
         case['deco'] = {'tag': draw(st.one_of(st.just(''), st.just(''), gen.tag_text())),
-                        'alt': draw(st.sampled_from(['', '', 'info-first', 'info-last', 'second-resolvable'])),
+                        'alt': draw(st.sampled_from(['', '', 'info-first', 'info-last', 'second-resolvable', 'unresolvable-first:Foo',
+                                                     'unresolvable-first:U:Foo', 'unresolvable-first:M:Foo', 'unresolvable-first:Obs:abc',
+                                                     'unresolvable-first:Glycan:Foo', 'unresolvable-first:X:Foo'])),
                         'mult': draw(st.sampled_from([1, 1, 2, 3, 5]))}
         case['bare_tag'] = draw(st.one_of(st.just(''), gen.tag_text()))
         return case
